@@ -2,7 +2,7 @@
 From Coq Require Import Ascii String List Bool Arith ZArith NArith.
 From PTBase Require Import Exn PyStr PyNum PyVal Fmt FixedFormat.
 From Gen Require Import GenTables GenSections.
-From P Require Import Comb Obj Fields Idem Sections SectionsB Rec SecRocks SecMesh SecGener SecMisc SecParam SecHist SecSel SecShort SecMeshm T2DataIO Whole Xp Example Prog IdemSec IdemSecB IdemWhole IdemEx Bin BinEx.
+From P Require Import Comb Obj Fields Idem Sections SectionsB Rec SecRocks SecMesh SecGener SecMisc SecParam SecHist SecSel SecShort SecMeshm T2DataIO Whole Xp Example Prog IdemSec IdemSecB IdemMeshm IdemWhole IdemEx Bin BinEx.
 Import ListNotations.
 Open Scope string_scope.
 
@@ -281,10 +281,12 @@ Print Assumptions t2data_read_write_binary_mesh_hypotheses_met.
 (** ** writing again what was read: the whole file (mesh in the file, no extra precision).
     [reread d ks] is the object t2data.read builds from the file of [d] (by t2data_read_write).  Its file is
     the first file with blanks before some newlines ([lpad]), and is reproduced byte for byte from then on.
-    Every section kind but MESHMAKER ([idem_covered]); that each written real survives the trip
-    ([istable]: its text, read and written again, is the same text) is a decidable hypothesis, as are the
-    conditions [idem_ok] on the values (no field holding the number 0 where the reader takes 0 for absent, ...) *)
-Theorem second_file_sections_covered : forall k, In k covered -> k <> "MESHM" -> In k idem_covered.
+    All 23 section kinds ([idem_covered]).  Decidable hypotheses, all of them computed in [idem_hyps]:
+    each written value survives the trip ([istable]: its text, read and written again, is the same text --
+    proved for integers, names and blanks, computed for reals); [idem_ok]: no field holds the number 0 where
+    the reader takes 0 for absent, names fill their columns, lists read back whole, ...; for MESHMAKER the
+    agreement of the two line programs is itself computed ([idem_meshm]) *)
+Theorem second_file_sections_covered : forall k, In k covered -> In k idem_covered.
 Proof. exact idem_covered_all. Qed.
 Print Assumptions second_file_sections_covered.
 Theorem line_program_write_idem : forall p ls, render T0 p = Ok ls -> Forall (istable T0) p ->
@@ -292,15 +294,15 @@ Theorem line_program_write_idem : forall p ls, render T0 p = Ok ls -> Forall (is
   render T0 (map (citem T0) (map (citem T0) p)) = render T0 (map (citem T0) p).
 Proof. exact (fun p ls W S => conj (render_rewrite T0 p ls W S) (render_fixpoint T0 p ls W S)). Qed.
 Print Assumptions line_program_write_idem.
-Theorem t2data_write_idem_partial : forall d ks ls,
+Theorem t2data_write_idem : forall d ks ls,
   write_lines d = Ok ls -> update_sections d = sections d -> sections d = map s2l ks -> xprec d = [] ->
   chain_ok d ks (start_state d) = true -> idem_ok d ks = true ->
   update_sections (reread d ks) = sections (reread d ks) ->
   Forall (istable T0) (prog_file d ks) ->
   exists ls', write_lines (reread d ks) = Ok ls' /\ Forall2 lpad ls ls' /\ render T0 (map (citem T0) (prog_file d ks)) = Ok ls'.
 Proof. exact write_idem. Qed.
-Print Assumptions t2data_write_idem_partial.
-Theorem t2data_write_fixpoint_partial : forall d ks ls,
+Print Assumptions t2data_write_idem.
+Theorem t2data_write_fixpoint : forall d ks ls,
   write_lines d = Ok ls -> update_sections d = sections d -> sections d = map s2l ks -> xprec d = [] ->
   chain_ok d ks (start_state d) = true -> idem_ok d ks = true ->
   update_sections (reread d ks) = sections (reread d ks) ->
@@ -310,15 +312,14 @@ Theorem t2data_write_fixpoint_partial : forall d ks ls,
   update_sections (reread D ks) = sections (reread D ks) ->
   exists ls', write_lines D = Ok ls' /\ Forall2 lpad ls ls' /\ read_lines ls' = Ok (reread D ks) /\ write_lines (reread D ks) = Ok ls'.
 Proof. exact write_fixpoint. Qed.
-Print Assumptions t2data_write_fixpoint_partial.
+Print Assumptions t2data_write_fixpoint.
 (** all of these hypotheses as one boolean (the stability of the reals computed), and two objects that meet it *)
-Theorem t2data_write_idem_checked_partial : forall d ks, idem_hyps d ks = true ->
+Theorem t2data_write_idem_checked : forall d ks, idem_hyps d ks = true ->
   exists ls ls', write_lines d = Ok ls /\ write_lines (reread d ks) = Ok ls' /\ Forall2 lpad ls ls' /\
     read_lines ls' = Ok (reread (reread d ks) ks) /\ write_lines (reread (reread d ks) ks) = Ok ls'.
 Proof. exact write_fixpoint_checked. Qed.
-Print Assumptions t2data_write_idem_checked_partial.
+Print Assumptions t2data_write_idem_checked.
 Theorem t2data_write_idem_hypotheses_met :
-  idem_hyps (drop_meshm example_tough2) (no_meshm example_tough2_order) = true /\
-  idem_hyps (drop_meshm example_autough2) (no_meshm example_autough2_order) = true.
+  idem_hyps example_tough2 example_tough2_order = true /\ idem_hyps example_autough2 example_autough2_order = true.
 Proof. exact (conj example_tough2_idem example_autough2_idem). Qed.
 Print Assumptions t2data_write_idem_hypotheses_met.
